@@ -24,16 +24,17 @@ fn ski(v: &Value) -> Option<KeyIdentifier> {
         _ => Some(KeyIdentifier::from([0xFEu8; 20])),
     }
 }
-/// variant 0: model bits at the top of the address; variant 1: inside 10.0.0.0/8 resp. 2001:db8::/32
+/// variant 0: model bits at the top of the address; variant 1: inside 10.0.0.0/8 resp. 2001:db8::/32;
+/// variant 2: model bits at the bottom of the address (prefix lengths /30../32 and /126../128: host prefixes included)
 fn prefix(v: &Value, variant: u32) -> Option<Prefix> {
     let (f, a, l) = (v[0].as_u64().unwrap(), v[1].as_u64().unwrap() as u128, v[2].as_u64().unwrap() as u8);
     match f {
         4 => {
-            let (addr, len) = if variant == 0 { ((a as u32) << 30, l) } else { (0x0A00_0000 | ((a as u32) << 22), 8 + l) };
+            let (addr, len) = match variant { 0 => ((a as u32) << 30, l), 1 => (0x0A00_0000 | ((a as u32) << 22), 8 + l), _ => (0xC000_0200 | a as u32, 30 + l) };
             Some(Prefix::new(IpAddr::V4(Ipv4Addr::from(addr)), len).unwrap())
         }
         6 => {
-            let (addr, len) = if variant == 0 { (a << 126, l) } else { ((0x2001_0db8u128 << 96) | (a << 94), 32 + l) };
+            let (addr, len) = match variant { 0 => (a << 126, l), 1 => ((0x2001_0db8u128 << 96) | (a << 94), 32 + l), _ => ((0x2001_0db8u128 << 96) | 0xff00 | a, 126 + l) };
             Some(Prefix::new(IpAddr::V6(Ipv6Addr::from(addr)), len).unwrap())
         }
         _ => None,
@@ -57,12 +58,15 @@ fn build_file(c: &Value, variant: u32, with_comments: bool) -> (SlurmFile, Paylo
     }
     let it = &c["item"];
     let key_info = RouterKeyInfo::try_from(vec![0xfbu8, 0xef, 0xbe, 0xff, 0x00, 0x3e, 1, 2, 3]).unwrap();
-    let providers = ProviderAsns::try_from_iter([Asn::from_u32(65000), Asn::from_u32(65001)]).unwrap();
+    // an assertion's provider list is handed on as it is: sorted (variant 0), unsorted with a repeat (others)
+    let providers = if variant == 0 { ProviderAsns::try_from_iter([Asn::from_u32(65000), Asn::from_u32(65001)]).unwrap() }
+                    else { ProviderAsns::try_from_iter([Asn::from_u32(65001), Asn::from_u32(65000), Asn::from_u32(70000), Asn::from_u32(65001)]).unwrap() };
     let mut assertions = LocallyAddedAssertions::new(Vec::new(), Vec::new());
     let item = match it["kind"].as_str().unwrap() {
         "prefix" => {
             let p = prefix(&it["prefix"], variant).unwrap();
-            let ml = if variant == 1 { Some(p.len() + 1) } else { None };
+            // no max length / one longer / equal to the prefix length (written explicitly)
+            let ml = match variant { 1 => Some(p.len() + 1), 2 => Some(p.len()), _ => None };
             let m = MaxLenPrefix::new(p, ml).unwrap();
             assertions.prefix.push(PrefixAssertion::new(m, asn(&it["asn"]).unwrap(), cm(0)));
             Payload::origin(m, asn(&it["asn"]).unwrap())
@@ -84,7 +88,7 @@ pub fn replay(args: &[String]) {
     let mut s = Summary::new();
     for c in &cases {
         let exp = c["drop"].as_bool().unwrap();
-        for variant in 0..2u32 {
+        for variant in 0..3u32 {
             let case = json!({"case": c, "variant": variant});
             let r = guarded(|| -> Result<(), (String, String)> {
                 let (file, item) = build_file(c, variant, variant == 1);
